@@ -104,7 +104,15 @@ func (s *BlockchainRpcTxWatcher) StartWatchingTxs() error {
 			case <-s.ctx.Done():
 				return nil
 			case nb := <-s.newBlockChan:
+				// Observers register and remove themselves from other
+				// goroutines; iterate over a copy taken under the lock.
+				s.Lock()
+				observers := make([]observerInfo, 0, len(s.observerLoopList))
 				for _, obs := range s.observerLoopList {
+					observers = append(observers, obs)
+				}
+				s.Unlock()
+				for _, obs := range observers {
 					go func(height uint32) { obs.blockChan <- height }(uint32(nb))
 				}
 				// Todo: HandleCsvTx could also need a refresh.
